@@ -38,9 +38,14 @@ class Built:
 _CACHE = {}
 
 
-def arch_for(rvc):
+def arch_for(rvc, march="riscv"):
     from ppci.api import get_arch
+    if march == "arm":
+        return get_arch("arm")
     return get_arch("riscv:rvc" if rvc else "riscv")
+
+
+STUB = {"riscv": "jalr x0, x1, 0", "arm": "mov pc, lr"}
 
 
 def make_module(src, kind, arch, level):
@@ -68,9 +73,9 @@ def module_text(m):
     return f.getvalue()
 
 
-def build(key, src, kind, entry, externs, level, rvc):
+def build(key, src, kind, entry, externs, level, rvc, march="riscv"):
     """-> Built (status 'ok' | 'no-code' with the back-end exception).  Cached per process."""
-    ck = (key, level, rvc)
+    ck = (key, level, rvc, march)
     if ck in _CACHE:
         return _CACHE[ck]
     from ppci import api
@@ -79,16 +84,21 @@ def build(key, src, kind, entry, externs, level, rvc):
     b.status, b.error = "ok", ""
     logging.disable(logging.WARNING)
     try:
-        arch = arch_for(rvc)
+        arch = arch_for(rvc, march)
         b.arch = arch
+        b.march = march
         b.module = m_cg = make_module(src, kind, arch, level)
         before = module_text(m_cg)
         try:
             obj = api.ir_to_object([m_cg], arch, opt="size" if level == "s" else "speed")
             objs = [obj]
             if externs:
-                stub = "section code\n" + "".join(f"global {e}\n{e}:\njalr x0, x1, 0\n" for e in externs)
+                stub = "section code\n" + "".join(f"global {e}\n{e}:\n{STUB[march]}\n" for e in externs)
                 objs.append(api.asm(io.StringIO(stub), arch))
+            rt = None
+            if march == "arm":
+                rt = arch.get_runtime()                # ppci's own helper routines for this target (__sdiv)
+                objs.append(rt)
             lay = Layout()
             mc = Memory("flash")
             mc.location, mc.size = CODE_BASE, 0x10000
@@ -116,14 +126,26 @@ def build(key, src, kind, entry, externs, level, rvc):
         b.image = img
         b.sym = {n: out.get_symbol_value(n) for n, s in out.symbol_map.items() if s.defined}
         b.entry = b.sym[entry]
+        b.helper_lo = b.helper_hi = 0
+        if march == "arm":     # address range of the runtime routines (linked last)
+            names = [n for n, sy in rt.symbol_map.items() if sy.defined and n in b.sym]
+            if names:
+                b.helper_lo = min(b.sym[n] for n in names)
+                b.helper_hi = b.sections["code"][0] + b.sections["code"][1]
         f = _tv.find_function(b.module, entry)
         b.func = f
         b.arg_locs = arch.determine_arg_locations([p.ty for p in f.arguments])
         b.rv_reg = None
         if type(f).__name__ == "Function":
             b.rv_reg = arch.determine_rv_location(f.return_ty).num
-        b.callee_save = sorted({r.num for r in arch.callee_save} | {arch.fp.num, 2})
-        b.caller_save = sorted(r.num for r in arch.caller_save)
+        b.sp = {"riscv": 2, "arm": 13}[march]
+        b.lr = {"riscv": 1, "arm": 14}[march]
+        b.callee_save = sorted({r.num for r in arch.callee_save} | {arch.fp.num, b.sp})
+        if hasattr(arch, "caller_save"):
+            b.caller_save = sorted(r.num for r in arch.caller_save)
+        else:   # every allocatable register that the callee need not preserve
+            alloc = {r.num for rc in arch.info.register_classes for r in rc.registers if hasattr(r, "num")}
+            b.caller_save = sorted(alloc - set(b.callee_save))
         b.stubs = {}
         for e in getattr(b.module, "externals", []):
             if e.name in b.sym and type(e).__name__ in ("ExternalFunction", "ExternalProcedure"):
